@@ -78,7 +78,7 @@ func evalPath(p *Path, vars map[string]string, env0 map[string]int64, lenient bo
 			holds, err := evalLit(*ev.Lit, vars, env)
 			if err != "" {
 				if strings.HasPrefix(err, "unknown:") {
-					if lenient {
+					if lenient || ev.Lit.Inl {
 						continue
 					}
 					return false, nil, "a branch reads " + strings.TrimPrefix(err, "unknown:") + ", which is not one of the decision's recognised inputs (condition: " + ev.Lit.Atom.String() + ")"
